@@ -367,6 +367,16 @@ def gen_mrca_case(rng, tier):
     qs = []
     for _ in range(nq):
         qs.append({"seed": rng.randrange(10 ** 9)})
+    if rng.random() < 0.12 and n >= 3:
+        # a tree not flagged rooted with a basal bifurcation and missing lengths: the refresh collapses it
+        t = trees.gen_tree(rng, n, shape="binary", lengths="mixed")
+        for k in t["kids"]:
+            if rng.random() < 0.5:
+                k["len"] = None
+        rooted = rng.choice([False, None])
+        state = rng.choice(["fresh", "encoded"])
+        mut = None
+        qs[0]["force"] = "tm"
     return {"kind": "mrca", "tree": t, "n": n, "extra": extra, "holes": holes, "dup": dup, "rooted": rooted,
             "state": state, "mut": mut, "queries": qs, "ns_seed": rng.randrange(10 ** 9)}
 
@@ -452,9 +462,9 @@ def observe_mrca(case):
         pool = list(range(len(objs)))
         r = rng.random()
         kw = {}
-        if r < 0.18 and len(leaf_tax) >= 1:
+        if (r < 0.18 or q.get("force") == "tm") and len(leaf_tax) >= 1:
             a, b = rng.choice(leaf_tax), rng.choice(leaf_tax)
-            upd = rng.random() < 0.4
+            upd = rng.random() < 0.4 and q.get("force") != "tm"
             qd = ["tm", a, b, upd]
             res = res_call(lambda: treemeasure.patristic_distance(tree, objs[a], objs[b], is_bipartitions_updated=upd))
             if res[0] == "Ok":
@@ -787,6 +797,7 @@ def dump_qtree(node, tix):
 def observe_clu(case):
     import dendropy
     obs = {"skip": None, "extra": []}
+    via_csv = False
     if case["via"] == "csv-text":
         m = len(case["matrix"])
         labels = ["t%d" % i for i in range(m)]
@@ -799,13 +810,14 @@ def observe_clu(case):
         pdm = dendropy.PhylogeneticDistanceMatrix.from_csv(
             src, is_first_row_column_names=(case["header"] == "both"), is_first_column_row_names=True)
         objs = [pdm.taxon_namespace.get_taxon(l) for l in labels]
+        via_csv = True
     else:
         t = case["tree"]
         ntax = len(trees.leaves(t))
         ns, objs = trees.make_namespace(ntax)
         tree, _ = trees.build_dendropy(t, objs, is_rooted=True, namespace=ns)
         pdm = tree.phylogenetic_distance_matrix()
-        if case["via"] != "tree":
+        if case["via"] != "tree" and len(pdm._mapped_taxa) == len(objs):
             kw = {}
             if case["via"] == "csv":
                 kw["is_normalize_by_tree_size"] = False
@@ -839,8 +851,9 @@ def observe_clu(case):
                 o2 = io.StringIO()
                 obs["extra"].append(["rewrite", res_call(lambda: pdm2.write_csv(o2, is_normalize_by_tree_size=False) or 0)])
             pdm, objs = pdm2, new
+            via_csv = True
     tix = {id(o): i for i, o in enumerate(objs)}
-    src = pdm._taxon_phylogenetic_distances if (case["weighted"] or case["via"] != "tree") else pdm._taxon_phylogenetic_path_steps
+    src = pdm._taxon_phylogenetic_distances if (case["weighted"] or via_csv) else pdm._taxon_phylogenetic_path_steps
     order = [tix[id(x)] for x in pdm._mapped_taxa]
     n = len(objs)
     rows = []
@@ -854,13 +867,14 @@ def observe_clu(case):
         rows.append(row)
     obs["order"] = order
     obs["rows"] = rows
+    obs["via_csv"] = via_csv
     # tie-breaks that depend on rounding: leave out
     if n >= 2 and len(order) == n:
         vals = [[Fraction(0) if rows[a][b] is None else fr_of(rows[a][b]) for b in range(n)] for a in range(n)]
         if clu_sim(vals, order, case["nj"], float) != clu_sim(vals, order, case["nj"], Fraction):
             obs["skip"] = "tie-break depends on binary64 rounding"
             return obs
-    weighted = case["weighted"] or case["via"] != "tree"
+    weighted = case["weighted"] or via_csv
     if case["nj"]:
         r = res_call(lambda: pdm.nj_tree(is_weighted_edge_distances=weighted))
     else:
@@ -932,7 +946,7 @@ def oracle_clu(case, obs):
     if n < 2:
         return None
     scale = Fraction(1)
-    if case["via"] == "csv-normalized":
+    if case["via"] == "csv-normalized" and obs.get("via_csv"):
         scale = 1 / (Fraction(sum((x["len"] or 0) for x in trees.preorder(t))) * FUNIT)
     eps = Fraction(1, 10 ** 9)
     if case["gen"] == "additive" and case["nj"]:
@@ -1010,7 +1024,7 @@ def to_coq(case, obs):
         return "(CMrca %s %s %s %s %s)" % (ns, trees.c_tree(obs["tree0"]), c_ob(obs["rooted0"]), c_enc(obs["enc0"]), qs)
     if obs["skip"]:
         return TRIVIAL
-    if case["via"] == "tree":
+    if not obs.get("via_csv"):
         src = "(SrcTree %s %s)" % (trees.c_tree(case["tree"]), cbool(case["weighted"]))
     else:
         n = len(obs["rows"])
